@@ -65,10 +65,12 @@ CONFIGS = {
     "quick": dict(
         B=dict(NTx=2, MaxOps=5, MaxM=2, Outs='{"ok","mempool","invalid"}', ROuts='{"ok","confirmed"}'),
         S=dict(NP=3, Thrs="{50,60}", Codes="{1,2,4}", MaxDelay=1, MaxX=1),
+        BF=dict(NTx=2, MaxOps=5, MaxM=2, Outs='{"ok","mempool","invalid"}', ROuts='{"ok","confirmed"}'),
         walks=0, depth=0, keep=10),
     "thorough": dict(
         B=dict(NTx=3, MaxOps=5, MaxM=1, Outs='{"ok","mempool","invalid"}', ROuts='{"ok","confirmed"}'),
         S=dict(NP=4, Thrs="{50,60,100}", Codes="{1,2,3,4,5}", MaxDelay=1, MaxX=0),
+        BF=dict(NTx=3, MaxOps=5, MaxM=2, Outs='{"ok","mempool","invalid"}', ROuts='{"ok","confirmed","invalid"}'),
         walks=4000, depth=14, keep=20,
         # a second, smaller Broadcaster graph with every outcome class
         B2=dict(NTx=2, MaxOps=5, MaxM=2,
@@ -159,6 +161,18 @@ def model(module, consts, wd, invariants):
     return tlc, g, gf, names
 
 
+def model_fine(consts, wd):
+    """Small-step semantics of Broadcaster.tla (inputs at any moment, any number of waiters): model-level
+    check of the structural invariants and of NoStuck. Nothing is exported or replayed."""
+    inv = ["TypeOK", "SemInv", "SortedInv"] + (["NoStuck"] if consts["FixMarkQuit"] else [])
+    tlc = core.run_tlc([SPEC], "Broadcaster", dict(consts, Fine=True), workers=8, export=False, invariants=inv,
+                       workdir=wd, timeout=3000)
+    if not tlc.ok:
+        raise core.MachineryError("TLC on Broadcaster (small steps) failed: %s\n%s" % (tlc.error,
+                                                                                       tlc.stdout_tail[-3000:]))
+    return tlc
+
+
 def build_b(sc):
     return family.build_overlay_test(PKG_B, [DRV_B, WALKER], os.path.join(sc, "pushtx.test"))
 
@@ -207,6 +221,17 @@ def judge_chunked(props_module, prop_id, observed, chunk=3000, par=4):
     return out
 
 
+def paths_from_replay(replay_file, pf):
+    """A saved observed trace as a one-path input of the strict mode of the driver. A step with a note is a
+    real input whose outcome no model transition matched (kept); steps of the epilogue are re-created by
+    the driver (dropped)."""
+    tr = json.load(open(replay_file))["trace"]
+    steps = [{"act": s["act"], "obs": s["obs"], "viol": []} for s in tr["steps"]
+             if not str(s.get("note", "")).startswith("after the code left the model")]
+    with open(pf, "w") as f:
+        f.write(json.dumps({"id": 0, "init_obs": tr.get("init_obs"), "steps": steps}) + "\n")
+
+
 def drift_of(observed):
     n_steps = sum(len(t["steps"]) for t in observed)
     n_drift, samples = 0, []
@@ -241,23 +266,28 @@ def run(prop_id, tier, seed, replay=None):
             fam = json.load(open(replay))["trace"].get("fam", "broadcaster")
             k = "s" if fam == "sendtx" else "b"
             pf = os.path.join(sc, "paths.ndjson")
-            family.paths_from_replay(replay, pf)
+            paths_from_replay(replay, pf)
             binary = builders[k](sc)
             observed[k], stats[k] = drive(binary, fams[k][2], sc, k, seed, paths=pf)
             run_keys = [k]
         else:
-            runs = {"b": ("Broadcaster", dict(cfg["B"], FixMarkQuit=CODE_VERSION["FixMarkQuit"]),
-                          ["TypeOK", "Quiescent", "SemInv", "SortedInv", "IdleServes"]),
-                    "s": ("SendTx", dict(cfg["S"], FixRejectFromReplier=CODE_VERSION["FixRejectFromReplier"]),
-                          ["TypeOK"])}
+            # the model itself must satisfy the property once the code version says "repaired"
+            binv = ["TypeOK", "Quiescent", "SemInv", "SortedInv", "IdleServes"] + (
+                ["NoViolation"] if CODE_VERSION["FixMarkQuit"] else [])
+            sinv = ["TypeOK"] + (["NoViolation"] if CODE_VERSION["FixRejectFromReplier"] else [])
+            bconst = dict(FixMarkQuit=CODE_VERSION["FixMarkQuit"], Fine=False)
+            runs = {"b": ("Broadcaster", dict(cfg["B"], **bconst), binv),
+                    "s": ("SendTx", dict(cfg["S"], FixRejectFromReplier=CODE_VERSION["FixRejectFromReplier"]), sinv)}
             if "B2" in cfg:
-                runs["b2"] = ("Broadcaster", dict(cfg["B2"], FixMarkQuit=CODE_VERSION["FixMarkQuit"]),
-                              ["TypeOK", "Quiescent", "SemInv", "SortedInv", "IdleServes"])
+                runs["b2"] = ("Broadcaster", dict(cfg["B2"], **bconst), binv)
             with concurrent.futures.ThreadPoolExecutor(max_workers=6) as ex:
                 fb = {k: ex.submit(builders[k], sc) for k in ("b", "s")}
                 fm = {k: ex.submit(model, v[0], v[1], os.path.join(sc, "tlc-" + k), v[2]) for k, v in runs.items()}
+                ff = ex.submit(model_fine, dict(cfg["BF"], FixMarkQuit=CODE_VERSION["FixMarkQuit"]),
+                               os.path.join(sc, "tlc-fine"))
                 bins = {k: f.result() for k, f in fb.items()}
                 models = {k: f.result() for k, f in fm.items()}
+                tlcs["b-small-steps"] = ff.result()
             run_keys = list(runs)
             for k in run_keys:
                 tlc, g, gf, names = models[k]
@@ -303,9 +333,10 @@ def run(prop_id, tier, seed, replay=None):
             g.edges += x.edges
         if replay:
             g = None
-        extra = {"traces_validated_against_impl": n_paths, "replayed_paths": n_paths, "replayed_steps": n_steps,
+        extra = {"states": max(1, sum(t.distinct for k, t in tlcs.items() if k != "b-small-steps")),
+                 "traces_validated_against_impl": n_paths, "replayed_paths": n_paths, "replayed_steps": n_steps,
                  "traces_judged_again_by_tlc_on_observed_values": len(all_obs),
-                 "config": {k: v for k, v in cfg.items() if k in ("B", "S", "B2")}, "code_version": CODE_VERSION,
+                 "config": {k: v for k, v in cfg.items() if k in ("B", "S", "B2", "BF")}, "code_version": CODE_VERSION,
                  "replay_stats": stats,
                  "edges_not_hit_because_the_code_chose_otherwise": sum(s.get("not_hit_scheduling", 0) for s in stats.values()),
                  "edges_only_reachable_through_model_violation": sum(
